@@ -19,17 +19,22 @@ var (
 	leavesNest = []string{"X", "--", "-a"} // deep nesting of repetitions / optional groups
 	leavesOpts = []string{"-a", "-b", "X"} // two options consumable at several points of one run (backtracking completeness)
 	// the alternative declarations (ref.Alt): long name first, two short names, three names
+	// declaration set "num" (digit-named flag, folds that read like numbers)
+	leavesNum = []string{"OPTIONS", "--ipv4", "-i", "-n", "-f", "-inf", "-p", "X"}
+	tokNum    = []string{"x", "--", "-4", "--ipv4", "-4=true", "-i", "-n", "-f", "-inf", "-nf", "-i4", "-4n", "-p5", "-p", "5", "-p=.5", "-4p5"}
 	leavesAlt = []string{"-a", "--aa", "-m", "-nm", "-an", "-o", "--output", "OPTIONS", "X"}
 	tokAlt    = []string{"x", "--", "-a", "--aa", "-n", "-m", "-mn", "-na", "-ov", "--output=v", "--out", "-amo"}
 
 	tokFull = []string{"x", "v", "-", "--", "-a", "--aa", "-a=true", "-b", "-ab", "-ba", "-o", "-ov", "-o=v", "--out", "--out=v",
 		"-aov", "-ao", "-z", "--zz", "-az", "-o=", "--out=", "-z=v",
 		// unambiguous prefixes of declared long names are NOT spellings of them
-		"--ou=v", "--a"}
+		"--ou=v", "--a",
+		// a value with characters that also occur in names (`_`, `-`, `=`) is bound byte for byte
+		"--out=w_-=z"}
 	tokMid  = []string{"x", "-", "--", "-a", "--aa", "-b", "-ab", "-o", "-ov", "--out=v", "-ao", "-z"}
 	tokTiny = []string{"x", "-", "--", "-a", "-b", "-ab", "-ov", "-z"}
 	// built-in value types: additionally values with surrounding blanks (must be bound byte for byte)
-	tokBuiltin = append(append([]string{}, tokMid...), " x ", "-o v ", "-ov\xff\xfe")
+	tokBuiltin = append(append([]string{}, tokMid...), " x ", "-o v ", "-ov\xff\xfe", "--out=w_-=z")
 )
 
 func init() {
@@ -58,6 +63,7 @@ func langTiers(c *Ctx) []langTier {
 			{name: "builtin-s3-l3", leaves: leavesFull, maxSize: 3, toks: tokBuiltin, maxLen: 3, builtin: true},
 			{decl: "alt", name: "alt-s3-l3", leaves: leavesAlt, maxSize: 3, toks: tokAlt, maxLen: 3},
 			{decl: "alt", name: "alt-s4-l2", leaves: leavesAlt, maxSize: 4, toks: tokAlt, maxLen: 2},
+			{decl: "num", name: "num-s3-l3", leaves: leavesNum, maxSize: 3, toks: tokNum, maxLen: 3},
 		}
 	}
 	return []langTier{
@@ -69,6 +75,7 @@ func langTiers(c *Ctx) []langTier {
 		{name: "builtin-s2-l3", leaves: leavesFull, maxSize: 2, toks: tokBuiltin, maxLen: 3, builtin: true},
 		{decl: "alt", name: "alt-s2-l3", leaves: leavesAlt, maxSize: 2, toks: tokAlt, maxLen: 3},
 		{decl: "alt", name: "alt-s3-l2", leaves: leavesAlt, maxSize: 3, toks: tokAlt, maxLen: 2},
+		{decl: "num", name: "num-s2-l3", leaves: leavesNum, maxSize: 2, toks: tokNum, maxLen: 3},
 	}
 }
 
@@ -268,6 +275,9 @@ func rerunPhase(c *Ctx, d *ref.Decl, idx *int) {
 }
 
 func declName(d *ref.Decl) string {
+	if d.Name != "" {
+		return d.Name
+	}
 	if len(d.Args) == 1 {
 		return "alt"
 	}
@@ -336,6 +346,9 @@ func judgeLang(c *Ctx, d *ref.Decl, spec string, node *ref.Node, argv []string, 
 	if declName(d) == "alt" {
 		key += " declarations: --aa/-a flag, -n/-m flag, --out/-o/--output valued, X"
 	}
+	if declName(d) == "num" {
+		key += " declarations: -4/--ipv4 flag, -i flag, -n/--nan flag, -f flag, -p/--port valued, X"
+	}
 	if len(obs.Exits) > 0 || (obs.Panic != "") || obs.ActionRuns > 1 {
 		// with a well-formed spec under ContinueOnError, Run never exits, never panics, runs the Action at most once
 		if c.On("C01") {
@@ -395,6 +408,22 @@ func judgeLang(c *Ctx, d *ref.Decl, spec string, node *ref.Node, argv []string, 
 		if !node.HasEnd() {
 			if msg := directBindingInvariants(d, argv, obs.Lists, builtin); msg != "" {
 				c.Violation("C02", key, mkCase(), "every token bound exactly once, in order, to its own option/argument", msg+"; bound "+got)
+			}
+		}
+	}
+	// ---- C02 / C06, built-in types: handing every multi-valued declaration the same caller-owned default slice changes nothing
+	// (a variable left at its default reads as "nothing bound"); declarations must not communicate through that slice
+	if builtin && (c.On("C02") || c.On("C01")) {
+		obs2 := runLang(d, spec, argv, langOpts{builtin: true, sharedDefault: true})
+		c.Count("shared_default_runs", 1)
+		if obs2.Accepted != obs.Accepted {
+			if c.On("C01") {
+				c.Violation("C01", key+" shared-default-slice", mkCase(), "same acceptance as without defaults: "+obs.Summary(), obs2.Summary())
+			}
+		} else if obs.Accepted && c.On("C02") {
+			g1, g2 := ref.BindTextOf(d, obs.Lists), ref.BindTextOf(d, obs2.Lists)
+			if g1 != g2 {
+				c.Violation("C02", key+" shared-default-slice", mkCase(), "bound "+g1+" (as without a default; every multi-valued option and argument was declared with the same default slice)", "bound "+g2)
 			}
 		}
 	}
